@@ -26,7 +26,31 @@ MATTR = '+lse,+neon,+fp-armv8,+fullfp16,+v8.4a'
 LLVM = 'llvm-mc-14'
 
 
+DIS_CACHE = {}
+
+
+def disasm_batch(words):
+    """one llvm-mc run for many words; results keyed by the encoding llvm echoes back"""
+    words = [w for w in set(words) if w not in DIS_CACHE]
+    if not words:
+        return
+    inp = '\n'.join(' '.join('0x%02x' % ((w >> (8 * k)) & 0xff) for k in range(4)) for w in words) + '\n'
+    p = subprocess.run([LLVM, '--disassemble', '-triple=aarch64', '-mattr=' + MATTR, '-M', 'no-aliases', '--show-encoding'],
+                       input=inp, stdout=subprocess.PIPE, stderr=subprocess.PIPE, text=True)
+    for ln in p.stdout.split('\n'):
+        m = re.match(r'\s*(.*?)\s*// encoding: \[([^\]]*)\]', ln)
+        if not m:
+            continue
+        bs = [int(x, 16) for x in m.group(2).split(',')]
+        w = bs[0] | bs[1] << 8 | bs[2] << 16 | bs[3] << 24
+        DIS_CACHE[w] = re.sub(r'\s+', ' ', m.group(1).strip())
+    for w in words:
+        DIS_CACHE.setdefault(w, None)
+
+
 def disasm(word):
+    if word in DIS_CACHE:
+        return DIS_CACHE[word]
     bs = ' '.join('0x%02x' % ((word >> (8 * k)) & 0xff) for k in range(4))
     p = subprocess.run([LLVM, '--disassemble', '-triple=aarch64', '-mattr=' + MATTR, '-M', 'no-aliases'],
                        input=bs, stdout=subprocess.PIPE, stderr=subprocess.PIPE, text=True)
@@ -69,7 +93,9 @@ def norm(text):
 def main():
     ap = argparse.ArgumentParser()
     ap.add_argument('--seed', type=int, default=1)
-    ap.add_argument('-n', type=int, default=40)
+    ap.add_argument('-n', type=int, default=3, help='runs per row and seed (the runner prints samples of the first 3 only)')
+    ap.add_argument('--seeds', type=int, default=40, help='number of seeds (seed, seed+1, ...)')
+    ap.add_argument('--per-row', type=int, default=8, help='samples checked per row')
     ap.add_argument('--rows', default='all')
     ap.add_argument('--crate', default=None)
     ap.add_argument('--show', action='store_true')
@@ -80,9 +106,17 @@ def main():
     runner = kx.build_runner(d)
     rows = a.rows.split(',')
     lines = []
-    for r in rows:
-        p = subprocess.run([runner, 'sample', r, str(a.seed), str(a.n)], stdout=subprocess.PIPE, stderr=subprocess.PIPE, text=True)
-        lines += p.stdout.split('\n')
+    for sd in range(a.seed, a.seed + a.seeds):
+        for r in rows:
+            p = subprocess.run([runner, 'sample', r, str(sd), str(a.n)], stdout=subprocess.PIPE, stderr=subprocess.PIPE, text=True)
+            lines += p.stdout.split('\n')
+    allw = []
+    for ln in lines:
+        m = re.match(r'SAMPLE \S+ \[[^\]]*\] .*?w=([0-9a-f,]+) asm=', ln)
+        if m:
+            allw += [int(x, 16) for x in m.group(1).split(',')]
+    disasm_batch(allw)
+    accepted = set()
     stats = dict(samples=0, words=0, text_equal=0, asm_equal=0, mismatch=0)
     per_row = {}
     violated = []
@@ -92,14 +126,18 @@ def main():
             violated.append(ln)
             continue
         m = re.match(r'ROW (\S+) held=(\d+) refused=(\d+)', ln)
-        if m and int(m.group(2)) == 0:
-            norows.append(m.group(1))
+        if m:
+            if int(m.group(2)) > 0:
+                accepted.add(m.group(1))
+            continue
         if not ln.startswith('SAMPLE '):
             continue
         m = re.match(r'SAMPLE (\S+) (\[[^\]]*\]) .*?w=([0-9a-f,]+) asm="([^"]*)"', ln)
         if not m:
             continue
         row, ops, ws, asms = m.group(1), m.group(2), m.group(3).split(','), [x.strip() for x in m.group(4).split(';')]
+        if per_row.get(row, 0) >= a.per_row:
+            continue
         stats['samples'] += 1
         per_row[row] = per_row.get(row, 0) + 1
         for wtxt, rend in zip(ws, asms):
@@ -121,10 +159,15 @@ def main():
             print('MISMATCH row=%s ops=%s word=%08x llvm="%s" rendered="%s" reassembled=%s %s' % (
                 row, ops, w, t1, rend, ('%08x' % enc) if enc is not None else None, err))
     print('rows with samples: %d; %s' % (len(per_row), stats))
+    norows = [r for r in kx.row_names(os.path.join(common.VERIF, kx.UNITS['a64']['rows'])) if r not in per_row and (a.rows == 'all' or r in rows)]
     if norows:
         print('rows without any accepted sample (not cross-checked): %s' % ' '.join(norows))
+    seenv = set()
     for v in violated:
-        print(v[:600])
+        r = v.split()[1]
+        if r not in seenv:
+            seenv.add(r)
+            print(v[:400])
     return 1 if stats['mismatch'] else 0
 
 
